@@ -140,6 +140,38 @@ def run(ctx):
             recs.append({"kind": "connect", "stack": stack, "pack": pname, "cfg": c, "log": l, "module": plat,
                          "gpack": got[0], "gcfg": got[1], "glog": got[2]})
             meta.append(f"{plat}.@connect")
+    # the generator (tests/packgen.py): every shipped table, turned back into the declaration shape the
+    # generator reads, is regenerated by the real generator functions and must come out identical
+    from ..packgen_rt import RoundTrip
+    rt = RoundTrip()
+    try:
+        for pm in [m for m in mods if m["kind"] == "pack"]:
+            cf = [m for m in mods if m["kind"] == "cfg" and m["platform"] == pm["platform"]]
+            lg = [m for m in mods if m["kind"] == "log" and m["platform"] == pm["platform"]]
+            try:
+                out = rt.regenerate(pm, cf, lg)
+            except Exception as e:  # noqa
+                out = {m["name"]: {"error": f"{type(e).__name__}: {e}"} for m in [pm] + cf + lg}
+            for m in [pm] + cf + lg:
+                name = m["name"]
+                got = out.get(name, {"error": "not generated"})
+                diffs = []
+                if "error" in got:
+                    diffs.append(got["error"][:200])
+                else:
+                    exp_t = dict(cur[f"{name}.@table"])
+                    if "error_keys" in exp_t:
+                        exp_t["error_keys"] = sorted(exp_t["error_keys"])
+                    for k in exp_t:
+                        if got["@table"].get(k) != exp_t[k]:
+                            diffs.append(f"@table.{k}")
+                    for tag in exp_t.get("tags", []):
+                        if got.get(tag) != cur[f"{name}.{tag}"]:
+                            diffs.append(tag)
+                recs.append({"kind": "gen", "module": name, "ndiff": len(diffs), "diffs": diffs[:8]})
+                meta.append(f"{name}.@generator")
+    finally:
+        rt.close()
     # immutability
     for key, prec in pinned.items():
         recs.append({"kind": "pin", "key": key, "pinned": prec, "current": cur.get(key, "missing")})
